@@ -50,3 +50,6 @@ Fixpoint is_prefix (p s : bytes) : bool :=
   end.
 Fixpoint contains (s sub : bytes) : bool :=
   is_prefix sub s || match s with [] => false | _ :: r => contains r sub end.
+
+(* a Coq string literal as bytes (for the word tables and rule bases transcribed from the Go source) *)
+Definition bs (s : String.string) : bytes := map (fun b => Byte.to_N b) (String.list_byte_of_string s).
